@@ -44,6 +44,7 @@ type respCase struct {
 	Method, H1, H2, Framing string
 	Body, Interim           string
 	Declared, Undeclared    int
+	ViaH2                   bool `json:"-"` // the backend speaks h2c: trailers can follow a body of announced length
 }
 type idCase struct {
 	N                          int
@@ -644,7 +645,7 @@ func buildResp(c respCase, rng *rand.Rand, id string) *scriptedResp {
 	body := pattern(id+"resp", total)
 	framing := c.Framing
 	declared, undeclared := c.Declared, c.Undeclared
-	if framing != "chunked" || noBody {
+	if (framing != "chunked" && !c.ViaH2) || noBody {
 		declared, undeclared = 0, 0
 	}
 	s := &scriptedResp{}
@@ -946,6 +947,7 @@ func httpRespDriver(a *Args) {
 				pass = f[0] + f[1]
 				id = fmt.Sprintf("p%d%s", c.N, pass)
 			}
+			c.ViaH2 = h2
 			s := buildResp(c, rng, id)
 			if quiet > 0 && strings.HasPrefix(pass, "qh") {
 				s.slowHead = quiet
@@ -1168,7 +1170,7 @@ func identityDriver(a *Args) {
 			return
 		}
 		one := func(c idCase, pass string, rng *rand.Rand) {
-			if c.Kind == "shim-open" && !k.shim {
+			if strings.HasPrefix(c.Kind, "shim-open") && !k.shim {
 				return
 			}
 			id := fmt.Sprintf("i%d%s", c.N, pass)
@@ -1222,15 +1224,18 @@ func identityDriver(a *Args) {
 				fmt.Fprintf(&raw, "GET /id/x?case=%s HTTP/1.1\r\nHost: svc.example\r\n", id)
 			case "post":
 				fmt.Fprintf(&raw, "POST /id/x?case=%s HTTP/1.1\r\nHost: svc.example\r\nContent-Length: 4\r\n", id)
-			case "shim-open":
+			case "shim-open", "shim-open-userinfo":
 				body := fmt.Sprintf("ws://svc.example/ws/x?case=%s", id)
+				if c.Kind == "shim-open-userinfo" {
+					body = fmt.Sprintf("ws://alice:s3cret@svc.example/ws/x?case=%s", id)
+				}
 				fmt.Fprintf(&raw, "POST /shimz/open HTTP/1.1\r\nHost: svc.example\r\nX-Websocket-Shim-Version: 1\r\nContent-Length: %d\r\n", len(body))
 				for _, h := range hdrs {
 					fmt.Fprintf(&raw, "%s: %s\r\n", h[0], h[1])
 				}
 				raw.WriteString("\r\n" + body)
 			}
-			if c.Kind != "shim-open" {
+			if !strings.HasPrefix(c.Kind, "shim-open") {
 				for _, h := range hdrs {
 					fmt.Fprintf(&raw, "%s: %s\r\n", h[0], h[1])
 				}
@@ -1257,10 +1262,20 @@ func identityDriver(a *Args) {
 			if pass != "" {
 				sig += ":concurrent"
 			}
+			if s == nil && c.Kind == "shim-open-userinfo" {
+				// the websocket library refuses such a URL: nothing reached the backend, so there is nothing to judge
+				res.Case(sig, map[string]interface{}{"classes": c, "reached_backend": false})
+				return
+			}
 			if s == nil {
 				hx.Emit("IdCase", "case", id, "sig", sig, "fwd", k.fwd, "strip", k.strip, "asserted", asserted, "saw_user", []string{"<no request reached the backend>"},
 					"saw_auth", []string{"<no request reached the backend>"}, "sent_user", nz(sentUser), "sent_auth", nz(sentAuth), "kind", c.Kind)
 			} else {
+				if c.Kind == "shim-open-userinfo" && !k.strip {
+					// without --strip-credentials, credentials named in the URL may legitimately travel on as a header:
+					// only the stripping (and the identity header) is judged for this kind
+					sentAuth = s.auth
+				}
 				hx.Emit("IdCase", "case", id, "sig", sig, "fwd", k.fwd, "strip", k.strip, "asserted", asserted, "saw_user", nz(s.user), "saw_auth", nz(s.auth),
 					"sent_user", nz(sentUser), "sent_auth", nz(sentAuth), "kind", c.Kind)
 			}
